@@ -135,6 +135,10 @@ pub struct Case {
     pub str_seed: u64,
     pub ops: Vec<OpRec>,
     pub sched: SchedCfg,
+    /// run by the build in which fastrace's own debug assertions are compiled in (replays must use
+    /// the same build)
+    #[serde(default)]
+    pub checked: bool,
 }
 
 /// node ids: outer operation i -> 16*i, its k-th inner operation -> 16*i + 1 + k
